@@ -7,6 +7,7 @@
 mod alloc;
 mod channel;
 mod checks;
+mod coop;
 mod faultrng;
 mod free;
 mod group;
@@ -191,22 +192,29 @@ fn miri_runs_c11(opts: &Opts) -> Vec<miri::MiriRun> {
         .collect()
 }
 
-/// A 2-bit proof made natively (real Ristretto) for the Miri scenario in which threads
-/// concurrently decode and verify the same proof: (proof hex, commitment hex).
-fn native_proof_for_miri(seed: u64) -> Option<(String, String)> {
+/// Proofs made natively (real Ristretto) for the Miri scenario in which threads concurrently decode
+/// and verify over one shared parameter object: (proof hex, concatenated commitments hex) for an
+/// aggregate of `m` commitments at `bits` bits.
+fn native_proof_for_miri(seed: u64, bits: usize, m: usize) -> Option<(String, String)> {
     use curve25519_dalek::{ristretto::RistrettoPoint, scalar::Scalar};
     use group::Group;
     use tari_bulletproofs_plus::{commitment_opening::CommitmentOpening, range_witness::RangeWitness};
-    let params = RistrettoPoint::params(2, 1, RistrettoPoint::pedersen(1)).ok()?;
-    let blind = world::scalar_from_seed("miri-proof", seed, 0);
-    let value = 1 + (seed % 3);
-    let c = RistrettoPoint::commit(params.pc_gens(), &Scalar::from(value), &[blind]).ok()?;
-    let w = RangeWitness::init(vec![CommitmentOpening::new(value, vec![blind])]).ok()?;
-    let st = RistrettoPoint::statement(params, vec![c], vec![None], None).ok()?;
+    let params = RistrettoPoint::params(bits, m, RistrettoPoint::pedersen(1)).ok()?;
+    let mut cs = Vec::new();
+    let mut ops = Vec::new();
+    for j in 0..m {
+        let blind = world::scalar_from_seed("miri-proof", seed, j as u64);
+        let value = (seed.wrapping_add(j as u64)) % (1 << bits);
+        cs.push(RistrettoPoint::commit(params.pc_gens(), &Scalar::from(value), &[blind]).ok()?);
+        ops.push(CommitmentOpening::new(value, vec![blind]));
+    }
+    let w = RangeWitness::init(ops).ok()?;
+    let st = RistrettoPoint::statement(params, cs.clone(), vec![None; m], None).ok()?;
     let mut t = merlin::Transcript::new(b"miri-sched");
     let mut rng = faultrng::FaultRng::new(faultrng::RngMode::Healthy(seed));
     let proof = RistrettoPoint::prove(&mut t, &st, &w, &mut rng).ok()?;
-    Some((hex::encode(RistrettoPoint::to_bytes(&proof)), hex::encode(RistrettoPoint::enc(&c))))
+    let ch: String = cs.iter().map(|c| hex::encode(RistrettoPoint::enc(c))).collect();
+    Some((hex::encode(RistrettoPoint::to_bytes(&proof)), ch))
 }
 
 fn miri_runs_c18(opts: &Opts) -> Vec<miri::MiriRun> {
@@ -215,24 +223,34 @@ fn miri_runs_c18(opts: &Opts) -> Vec<miri::MiriRun> {
     }
     let mut v = Vec::new();
     let base = (opts.seed % 1_000_000) * 10_000 + 5_000;
-    let (n_table, n_race, n_full, n_verify) = if opts.tier == Tier::Quick { (6u64, 4u64, 0u64, 6u64) } else { (96, 96, 48, 96) };
+    let (n_table, n_race, n_full, n_verify) = if opts.tier == Tier::Quick { (4u64, 4u64, 0u64, 6u64) } else { (96, 96, 48, 96) };
     // the slow scenarios first so that the workers stay busy
-    if let Some((proof, commitment)) = native_proof_for_miri(opts.seed) {
+    let corrupt = |p: &str| -> String {
+        // flip the lowest bit of the first byte of r1 (degree byte, d1[0], A, A1, B precede it)
+        let mut p = p.to_string();
+        let off = 2 * (1 + 32 * 4);
+        let b = u8::from_str_radix(&p[off..off + 2], 16).unwrap_or(0) ^ 1;
+        p.replace_range(off..off + 2, &format!("{:02x}", b));
+        p
+    };
+    if let (Some((p1, c1)), Some((p2, c2))) = (native_proof_for_miri(opts.seed, 2, 1), native_proof_for_miri(opts.seed ^ 7, 2, 2)) {
         for i in 0..n_verify {
-            // one third of the runs verify a corrupted copy (last byte of r1 changed): verdict Err
+            // variants: (a) capacity 1, every thread verifies the same single-commitment proof;
+            // (b) capacity 4 shared by threads that verify aggregates of 1 and of 2 commitments;
+            // one third of the runs hand one kind a corrupted copy (verdict Err)
             let reject = i % 3 == 2;
-            let mut p = proof.clone();
-            if reject {
-                // flip the lowest bit of the first byte of r1 (element 1 + 3 after the degree byte and d1)
-                let off = 2 * (1 + 32 * 4);
-                let b = u8::from_str_radix(&p[off..off + 2], 16).unwrap_or(0) ^ 1;
-                p.replace_range(off..off + 2, &format!("{:02x}", b));
+            // mixed aggregation over a capacity-4 object costs ~3.5 min of interpreter time per run and
+            // is thorough-only; logical races of that kind are the cooperative scheduler's business
+            let mixed = opts.tier == Tier::Thorough && i % 2 == 0;
+            // capacity 4 lets two different aggregation factors both sit below the capacity (about
+            // 3.5 min of interpreter time per run); quick keeps to two threads
+            let (cap_mixed, threads) = if opts.tier == Tier::Quick { ("4", 2) } else { (if i % 4 == 2 { "2" } else { "4" }, 2 + (i / 2) % 2) };
+            let mut args: Vec<String> = vec!["shared-verify".into(), threads.to_string(), "2".into(), if mixed { cap_mixed.into() } else { "1".into() }];
+            args.extend([if reject { corrupt(&p1) } else { p1.clone() }, c1.clone(), if reject { "reject".into() } else { "accept".into() }]);
+            if mixed {
+                args.extend([p2.clone(), c2.clone(), "accept".to_string()]);
             }
-            v.push(miri::MiriRun {
-                args: vec!["shared-verify".into(), (2 + i % 2).to_string(), "2".into(), p, commitment.clone(), if reject { "reject".into() } else { "accept".into() }],
-                seed: base + 3_000 + i,
-                preemption_rate: RATES[(i % 3) as usize].into(),
-            });
+            v.push(miri::MiriRun { args, seed: base + 3_000 + i, preemption_rate: RATES[(i % 3) as usize].into() });
         }
     }
     for i in 0..n_full {
